@@ -146,7 +146,7 @@ def spec_config(ops):
         elif o['kind'] == 'targets':
             s_, o_, a_, m_, i_, d_ = o['shown']
             set_ignores({'/cells/*': False, '/cells/*/outputs/*': False})
-            keys = ([] if d_ else ['execution_count']) + ([] if i_ else ['id']) + ([] if a_ else ['attachments'])
+            keys = ([] if d_ else ['execution_count']) + ([] if i_ else ['id']) + ([] if a_ else ['attachments']) + ([] if o_ else ['outputs'])
             set_ignores({'/cells/*/source': not s_, '/cells/*/outputs': not o_, '/cells/*/attachments': not a_, '/metadata': not m_,
                          '/cells/*/id': not i_, '/cells/*/metadata': not m_, '/cells/*/outputs/*/metadata': not m_,
                          '/cells/*': keys or False, '/cells/*/outputs/*': False if d_ else ['execution_count']})
